@@ -363,4 +363,4 @@ class Scheduler:
 
     def digest_input(self):
         return {'switches': self.switches, 'decisions': self.decisions,
-                'yields': self.seq, 'threads': self.max_threads}
+                'yields': self.seq, 'max_threads': self.max_threads}
